@@ -646,6 +646,10 @@ func (e *Exec) invExpr(x *Expr, head *ssa.BasicBlock, phiVals map[*ssa.Phi]Term,
 	if env.pkg == nil && e.fn.Origin() != nil {
 		env.pkg = e.fn.Origin().Pkg
 	}
+	// names are read as of the loop head (matters for values rebound by an in-place library call)
+	savedBlock := e.curBlock
+	e.curBlock = head
+	defer func() { e.curBlock = savedBlock }()
 	if asAssumption {
 		env.instAt = e.root().goalSk
 	} else {
@@ -693,6 +697,27 @@ func (e *Exec) invExpr(x *Expr, head *ssa.BasicBlock, phiVals map[*ssa.Phi]Term,
 			if x, ok := e.lookup(phi); ok && b.Dominates(head) {
 				env.vars[phi.Comment] = typedTerm{t: e.peekTerm(x, phi.Type()), typ: phi.Type()}
 			}
+		}
+	}
+	// header phis of other loops that dominate this one (a local built by an earlier loop, or carried by an enclosing
+	// one): their current value, when the name is carried by exactly one such phi
+	other := map[string][]*ssa.Phi{}
+	for _, b := range e.fn.Blocks {
+		if e.loops.header[b] == nil || b == head || !b.Dominates(head) {
+			continue
+		}
+		for _, in := range b.Instrs {
+			if phi, ok := in.(*ssa.Phi); ok && phi.Comment != "" {
+				other[phi.Comment] = append(other[phi.Comment], phi)
+			}
+		}
+	}
+	for name, phis := range other {
+		if _, taken := env.vars[name]; taken || len(phis) != 1 {
+			continue
+		}
+		if x, ok := e.lookup(phis[0]); ok && x.fn == nil && len(x.tup) == 0 {
+			env.vars[name] = typedTerm{t: e.peekTerm(x, phis[0].Type()), typ: phis[0].Type()}
 		}
 	}
 	for _, in := range head.Instrs {
